@@ -13,7 +13,7 @@ from . import c05, c12
 PROPERTY = 'C11'
 RULE = ('sessions of 2..4 connections with optional -f and filter/breakpoint/connection commands before the queries; queries mid-stream and '
         'after EOF: list, list M, list M ~ N, list ~ N, list X: M with N in {0, 1, k-1, k, k+1, 10^6} around the true match count k; '
-        'malformed M and N. distinct = hash of (session, query); non-trivial = query that lists some but not all recorded messages')
+        'malformed M and N; a third of the queries typed at the real prompt (TerminalUI), object ids spelled @N and #N. distinct = hash of (session, query); non-trivial = query that lists some but not all recorded messages')
 ASSUMPTIONS = ['matcher semantics as in C05 / accumulation as in C12; queries whose reference value is unspecified for some recorded message are skipped']
 REQUIRED = ['frontends/tui/controller.py:Controller.list_command', 'frontends/tui/controller.py:Controller._get_matching',
             'frontends/tui/controller.py:Controller.show_messages']
